@@ -197,6 +197,12 @@ func init() {
 			}
 			return i.ts.UF(name, ts)
 		},
+		"vxQuiesce": func(fr *frame, args []value) value {
+			if fr.i.sched == nil {
+				return 0
+			}
+			return fr.i.sched.quiesce(fr)
+		},
 		"vxSteps": func(fr *frame, args []value) value { return int(fr.i.run.steps) },
 		"vxSymbolic": func(fr *frame, args []value) value { return true },
 	}
@@ -274,8 +280,55 @@ func init() {
 		"(*sync.Mutex).TryLock":   func(fr *frame, args []value) value { return true },
 		"(*sync.RWMutex).Lock":    extLock,
 		"(*sync.RWMutex).Unlock":  extUnlock,
-		"(*sync.RWMutex).RLock":   extLock,
-		"(*sync.RWMutex).RUnlock": extUnlock,
+		"(*sync.RWMutex).RLock": func(fr *frame, args []value) value {
+			if fr.i.sched != nil {
+				fr.i.sched.rlock(fr, args[0].(*value))
+			}
+			return nil
+		},
+		"(*sync.RWMutex).RUnlock": func(fr *frame, args []value) value {
+			if fr.i.sched != nil {
+				fr.i.sched.runlock(fr, args[0].(*value))
+			}
+			return nil
+		},
+		"(*sync.Cond).Wait": func(fr *frame, args []value) value {
+			if fr.i.sched == nil {
+				fr.i.unsupported("sync.Cond.Wait in sequential mode")
+			}
+			fr.i.sched.condWait(fr, fr.i.derefPtr(args[0]))
+			return nil
+		},
+		"(*sync.Cond).Signal": func(fr *frame, args []value) value {
+			if fr.i.sched != nil {
+				fr.i.sched.condSignal(fr, fr.i.derefPtr(args[0]), false)
+			}
+			return nil
+		},
+		"(*sync.Cond).Broadcast": func(fr *frame, args []value) value {
+			if fr.i.sched != nil {
+				fr.i.sched.condSignal(fr, fr.i.derefPtr(args[0]), true)
+			}
+			return nil
+		},
+		"(*sync.WaitGroup).Add": func(fr *frame, args []value) value {
+			if fr.i.sched != nil {
+				fr.i.sched.wgAdd(fr, fr.i.derefPtr(args[0]), int(asInt64(args[1])))
+			}
+			return nil
+		},
+		"(*sync.WaitGroup).Done": func(fr *frame, args []value) value {
+			if fr.i.sched != nil {
+				fr.i.sched.wgAdd(fr, fr.i.derefPtr(args[0]), -1)
+			}
+			return nil
+		},
+		"(*sync.WaitGroup).Wait": func(fr *frame, args []value) value {
+			if fr.i.sched != nil {
+				fr.i.sched.wgWait(fr, fr.i.derefPtr(args[0]))
+			}
+			return nil
+		},
 		"(*sync.Once).Do":         extOnceDo,
 		"(*sync.Once).doSlow":     extOnceDo,
 		"(*sync.Pool).Get":        extPoolGet,
